@@ -331,6 +331,11 @@ func runC16(c *Ctx) {
 						alts = append(alts, shape.recv+"."+name+"("+strings.Join(repeatStr("{}", n), ", ")+")", shape.recv+"."+name+"("+strings.Join(repeatStr("Patient.name.given", n), ", ")+")",
 							"'abc'."+name+"("+strings.Join(repeatStr("{}", n), ", ")+")", "'abc'."+name+"("+strings.Join(repeatStr("('a' | 'b')", n), ", ")+")")
 					}
+					// ... and whatever TYPE the single receiver has (an implementation that handles one receiver type by
+					// calling another function's implementation with its own arguments hands on that function's arity check)
+					for _, recv := range []string{"true", "false", "(1 = 1)", "1", "0", "1.5", "'1'", "'true'", "@2020-01-01", "@2020-01-01T10:00:00Z", "@T10:00", "(1 'mg')", "(1 year)", "Patient.active", "Patient.birthDate", "Patient.name.first()"} {
+						alts = append(alts, recv+"."+name+"("+strings.Join(args, ", ")+")")
+					}
 					for _, asrc := range alts {
 						ae, aerr := fhirpath.Compile(asrc, copts...)
 						if aerr != nil {
